@@ -41,7 +41,21 @@ pub fn run(rng: &mut Rng, n: usize, rep: &mut Report) {
         }
         let op = *rng.pick(&["w.dep", "w.rep", "w.wd", "w.bor", "w.wdall", "w.repall"]);
         let amount_tokens = (gen_op_amount(rng, &bank, &bal) / ONE).max(0);
-        let amount = amount_tokens * ONE;
+        let mut amount = amount_tokens * ONE;
+        if op == "w.wd" && rng.chance(1, 3) && bank.asv > 0 {
+            // boundary: a position worth a hair (< ZERO_AMOUNT_THRESHOLD) less than the whole-token amount asked for:
+            // the shortfall must be booked as (dust) debt, never given away
+            let n_tok = 1 + rng.below(100_000) as i128;
+            let thr = (ONE / 10_000) as u64; // 0.0001
+            let target = n_tok * ONE - 1 - rng.below(thr + thr / 4) as i128;
+            let shares = (BigInt::from(target) * BigInt::from(ONE) / BigInt::from(bank.asv)).to_string().parse::<i128>().unwrap_or(0);
+            if shares > 0 && shares <= bank.sa {
+                bal.a = shares;
+                bal.l = 0;
+                amount = n_tok * ONE;
+                rep.bump("wd_hair_short");
+            }
+        }
         let (_, post) = run_wrapper_op(op, &bank, &bal, now, amount);
         let Some((nb, nbal)) = post else { continue };
         if nb.asv != bank.asv || nb.lsv != bank.lsv {
